@@ -9,6 +9,7 @@
   * Replay with rejected attempts removed (pruned): `PruneStable`, see RapidProofs/PruneStable.lean.
 -/
 import RapidProofs.PruneProp
+import RapidModel.Generated.CallOrders
 import RapidProofs.PruneCustom
 import RapidProofs.TranslatedEq
 import RapidProofs.TranslatedDataEq
@@ -173,5 +174,28 @@ theorem independent_of_T (p : Prog) (src : Src) (ts : TS) (h : Clean ts) :
 
 example : (checkOnce (.draw 3 fun w => if w == 5 then Prog.fatal "five" 1 else .ret .nil) (.buf [13]) TS.fresh).err
     = some (.stop "five" 1) := by decide
+
+/-- `genAnyMap` re-read from /repo statement by statement: a key that is already in the map rejects the attempt *before* anything is stored, so that the values of a run are the values of its pruned recording (S192 stored first) -/
+theorem make_map_source : Rapid.Generated.body_genAnyMap =
+    ["{", "keyGen := newMakeGen(typ.Key())", "valGen := newMakeGen(typ.Elem())",
+     "return Custom[any](func(t *T) any {", "label := keyGen.String() + \",\" + valGen.String()",
+     "repeat := newRepeat(-1, -1, -1, label)", "m := reflect.MakeMapWithSize(typ, repeat.avg())",
+     "for repeat.more(t.s) {", "k := reflect.ValueOf(keyGen.value(t))", "v := reflect.ValueOf(valGen.value(t))",
+     "if m.MapIndex(k).IsValid() {", "repeat.reject()", "} else {", "m.SetMapIndex(k, v)", "}", "}",
+     "return m.Interface()", "})", "}"] := by rfl
+
+/-- `Generator.Draw` re-read from /repo statement by statement: the value comes from `value(t)` alone; the label, the draw counter and the log line do not influence it -/
+theorem draw_source : Rapid.Generated.body_Generator_Draw =
+    ["{", "if t.tbLog {", "t.tb.Helper()", "}", "v := g.value(t)", "if len(t.refDraws) > 0 {",
+     "ref := t.refDraws[t.draws]", "if !reflect.DeepEqual(v, ref) {",
+     "t.tb.Fatalf(\"draw %v differs: %#v vs expected %#v\", t.draws, v, ref)", "}", "}",
+     "if t.tbLog || t.rawLog != nil {", "if label == \"\" {", "label = fmt.Sprintf(\"#%v\", t.draws)", "}",
+     "if t.tbLog {", "t.tb.Helper()", "}", "t.Logf(\"[rapid] draw %v: %#v\", label, v)", "}", "t.draws++",
+     "return v", "}"] := by rfl
+
+/-- `Generator.value` re-read from /repo statement by statement: a standalone group labelled with the generator around `impl.value(t)` -/
+theorem generator_value_source : Rapid.Generated.body_Generator_value =
+    ["{", "label := \"\"", "if s := g.str.Load(); s != nil {", "label = *s", "}", "i := t.s.beginGroup(label, true)",
+     "v := g.impl.value(t)", "t.s.endGroup(i, false)", "return v", "}"] := by rfl
 
 end Rapid.C04
